@@ -167,8 +167,21 @@ def neutral_pairs(fam):
 
 def nsite_words(fam):
     if fam.kind == 'spinful':
-        return [('cpu', 'cu', 'nd'), ('cpu', 'cu', 'cpd', 'cd'), ('nu', 'nd', 'nu'), ('Sp', 'Sm', 'nu'), ('cpd', 'nu', 'cd')]
-    return [('cp', 'c', 'n'), ('cp', 'c', 'cp', 'c'), ('n', 'n', 'n'), ('cp', 'n', 'c'), ('c', 'cp', 'n', 'n')]
+        return [('cpu', 'cu', 'nd'), ('cpu', 'cu', 'cpd', 'cd'), ('nu', 'nd', 'nu'), ('Sp', 'Sm', 'nu'), ('cpd', 'nu', 'cd'), ('cpu', 'cpu', 'cu', 'cu'), ('cpu', 'cpd', 'cu', 'cd'), ('cpd', 'cu', 'cd', 'cpu')]
+    return [('cp', 'c', 'n'), ('cp', 'c', 'cp', 'c'), ('n', 'n', 'n'), ('cp', 'n', 'c'), ('c', 'cp', 'n', 'n'), ('cp', 'cp', 'c', 'c'), ('cp', 'c', 'c', 'cp'), ('c', 'cp', 'cp', 'c')]
+
+
+def pick_sites(w, sites, rng):
+    """ sites for a word of operators: distinct ones, or with a site repeated (adjacent or not: (a, b, a, b), (a, a, b, b), (a, b, b, a), (a, b, a)): the operators of one site
+    are then multiplied in the given order, with the sign of moving them past the odd operators in between """
+    if rng.random() < 0.4 and len(sites) >= 2 and len(w) >= 3:
+        a, b = rng.sample(sites, 2)
+        pats = {3: [(a, b, a), (a, a, b), (b, a, a)], 4: [(a, b, a, b), (a, a, b, b), (a, b, b, a), (b, a, b, a)], 5: [(a, b, a, b, a)]}[min(len(w), 5)]
+        ss = list(rng.choice(pats))
+        return ss if len(ss) == len(w) else None
+    if len(sites) < len(w):
+        return None
+    return rng.sample(sites, len(w))
 
 
 def measure_all(fam, g, psi, order, rng, tree, tag, heavy):
@@ -184,7 +197,7 @@ def measure_all(fam, g, psi, order, rng, tree, tag, heavy):
     one = [n for n in fam.local if n != 'I'][:3] + ['I']
     pairs = neutral_pairs(fam)
     pairs = rng.sample(pairs, min(len(pairs), 3 if heavy else 2))
-    words = rng.sample(nsite_words(fam), 2)
+    words = rng.sample(nsite_words(fam), 3)
     Dbig = 4096
     opts_svd = {'D_total': Dbig, 'tol': 1e-14}
 
@@ -241,8 +254,8 @@ def measure_all(fam, g, psi, order, rng, tree, tag, heavy):
                         col.add(lab + '.2site[%s,%s]' % (prs, dirn), [a, b], [s0, s1], v)
         if lr_all:
             for w in words:
-                ss = [rng.choice(sites) for _ in w] if rng.random() < 0.3 else rng.sample(sites, min(len(w), len(sites)))
-                if len(ss) < len(w) or len(set(ss)) < len(ss):
+                ss = pick_sites(w, sites, rng)
+                if ss is None:
                     continue
                 v = guard(lab + '.measure_nsite(%s, %s)' % (w, ss), lambda: env.measure_nsite(*[ops[x] for x in w], sites=ss, opts_svd=opts_svd))
                 if v is not None:
@@ -292,9 +305,9 @@ def measure_all(fam, g, psi, order, rng, tree, tag, heavy):
                     v = guard(lab + '.%s(%s,%s at %s,%s)' % (fun, a, b, s0, s1), lambda: getattr(ctm, fun)(ops[a], ops[b], sites=[fpeps.Site(*s0), fpeps.Site(*s1)]))
                     if v is not None:
                         col.add(lab + '.' + fun, [a, b], [s0, s1], v)
-        for w in words:
-            ss = rng.sample(sites, min(len(w), len(sites)))
-            if len(ss) < len(w):
+        for w in words + ([words[0]] if len(sites) >= 2 else []):
+            ss = pick_sites(w, sites, rng)
+            if ss is None:
                 continue
             funs = ['measure_nsite', 'measure_nsite_exact']
             if max(s[0] for s in ss) - min(s[0] for s in ss) <= 1 and max(s[1] for s in ss) - min(s[1] for s in ss) <= 1 and Nx > 1 and Ny > 1:
